@@ -20,8 +20,8 @@ ID = "C17"
 CASES = {"quick": 640, "thorough": 8000}
 FLOOR = {"quick": 450, "thorough": 6000}
 FLOOR_COUNTERS = {
-    "quick": {"bandwidths_judged": 3000, "queries_judged": 2500, "assignments_judged": 30000, "degenerate_cloud_models": 80, "periodic_models": 100, "relation_pairs": 900, "oas_calls_seen": 3000},
-    "thorough": {"bandwidths_judged": 45000, "queries_judged": 35000, "assignments_judged": 450000, "degenerate_cloud_models": 1000, "periodic_models": 1300, "relation_pairs": 12000, "oas_calls_seen": 45000},
+    "quick": {"queries_sharing_a_coordinate": 150, "bandwidths_judged": 3000, "queries_judged": 2500, "assignments_judged": 30000, "degenerate_cloud_models": 80, "periodic_models": 100, "relation_pairs": 900, "oas_calls_seen": 3000},
+    "thorough": {"queries_sharing_a_coordinate": 2000, "bandwidths_judged": 45000, "queries_judged": 35000, "assignments_judged": 450000, "degenerate_cloud_models": 1000, "periodic_models": 1300, "relation_pairs": 12000, "oas_calls_seen": 45000},
 }
 RULE = (
     "case = descriptor cloud (1-4 dimensions, 30-160 points; multi-modal / anisotropic / collinear / constant coordinate / "
@@ -35,7 +35,7 @@ ASSUMPTIONS = [
     "relations are judged on configurations without assignment ties; tolerance 1e-6 on log-densities (bandwidth localisation is iterative)",
     "the localisation loops are capped at 1e5 _local_population calls per fit (exceeding it is inconclusive for the case)",
 ]
-KINDS = ("bimodal", "bimodal", "anisotropic", "generic", "collinear", "constant_coord", "tight_clusters")
+KINDS = ("bimodal", "bimodal", "anisotropic", "generic", "collinear", "constant_coord", "tight_clusters", "quantised")
 
 
 class _Watchdog(Exception):
@@ -68,6 +68,8 @@ def _cloud(rng, n, d, kind):
         if d > 1:
             X[:, int(rng.integers(d))] = float(rng.normal())
         return X
+    if kind == "quantised":  # measured on a coarse scale: many descriptors share coordinate values
+        return np.round(rng.normal(size=(n, d)) * 2) / 2 + (rng.random(size=(n, d)) < 0.3) * rng.normal(size=(n, d)) * 0.1
     c = rng.normal(size=(4, d)) * 6  # tight_clusters
     return c[rng.integers(0, 4, size=n)] + 0.05 * rng.normal(size=(n, d))
 
@@ -87,6 +89,13 @@ def gen(rng, tier, index):
         G = D[rng.permutation(n)[:M]] + 0.3 * D.std(axis=0).mean() * rng.normal(size=(M, d))
     else:
         G = None  # resolved in run (FPS needs the library)
+    Qq = D[rng.integers(0, n, size=6)] + 0.37 * D.std(axis=0).mean() * rng.normal(size=(6, d))
+    if kind == "constant_coord" and d > 1:
+        const = np.flatnonzero(D.std(axis=0) == 0)
+        Qq[:, const] = D[0, const]  # queries in the data's own hyper-plane share that coordinate exactly
+    if kind == "quantised":
+        Qq = np.round(Qq * 2) / 2
+        Qq[:, 0] += 0.25  # quantised like the data in all but one coordinate, hence never a descriptor
     loc = {"fpoints": float(rng.uniform(0.02, 0.9))} if rng.random() < 0.6 else {"fspread": float(10.0 ** rng.uniform(np.log10(0.05), np.log10(3.0)))}
     return {
         "D": D,
@@ -98,7 +107,7 @@ def gen(rng, tier, index):
         "M": M,
         "gseed": int(rng.integers(1 << 30)),
         "loc": loc,
-        "Q": D[rng.integers(0, n, size=6)] + 0.37 * D.std(axis=0).mean() * rng.normal(size=(6, d)),
+        "Q": Qq,
         "t": rng.normal(size=d) * 5,
         "pd": rng.permutation(n),
         "pg": rng.permutation(M),
@@ -109,16 +118,18 @@ def gen(rng, tier, index):
 
 
 def _grid(case):
+    """Grid points are pairwise distinct (a grid with a repeated point is a degenerate mixture; the
+    library's localisation loop does not terminate on it - see DESIGN.md 11.5)."""
     D, M = case["D"], case["M"]
     if case["grid_kind"] == "offsample":
         return case["G"]
-    if case["grid_kind"] == "subset":
-        return D[np.random.default_rng(case["gseed"]).permutation(len(D))[:M]].copy()
+    U = np.unique(D, axis=0)
+    M = min(M, len(U))
+    if case["grid_kind"] == "subset" or D.shape[1] < 2:  # the selectors need two features
+        return U[np.random.default_rng(case["gseed"]).permutation(len(U))[:M]].copy()
     from skmatter.sample_selection import FPS
 
-    if D.shape[1] < 2:  # the selectors need two features
-        return D[np.random.default_rng(case["gseed"]).permutation(len(D))[:M]].copy()
-    return D[FPS(n_to_select=M, initialize=int(case["gseed"] % len(D))).fit(D).selected_idx_].copy()
+    return U[FPS(n_to_select=M, initialize=int(case["gseed"] % len(U))).fit(U).selected_idx_].copy()
 
 
 def _dist2(A, B, cell):
@@ -370,6 +381,7 @@ def run(case, j):
     j.close("score_samples == log of the documented mixture", s, want, scale, {"fp_events": [e[:2] for e in fpq.in_skmatter()[:3]]})
     j.close("score == sum of the log-densities", float(est.score(Q.copy())), float(np.sum(s)), 1e-9 * (1 + abs(float(np.sum(s)))))
     j.note("queries_judged", len(Q))
+    j.note("queries_sharing_a_coordinate", int(sum(bool(np.any(D == q[None, :])) for q in Q)))
     # ---- relations
     tol = 1e-6 * (1 + np.abs(s))
     finite = bool(np.all(np.isfinite(s)))
